@@ -1024,6 +1024,9 @@ class BaseMatcher:
                         if m_next is not None:
                             if m_next.key in cur_lattice_new:
                                 cur_lattice_new[m_next.key].update(m_next)
+                            elif m_next.stop:
+                                # Stopped matches only exist for debugging output, they are no candidates
+                                cur_lattice_new[m_next.key] = m_next
                             else:
                                 if m_next.shortkey in lattice_best:
                                     # if m_next.logprob > lattice_best[m_next.shortkey].logprob:
@@ -1076,7 +1079,10 @@ class BaseMatcher:
                         edge_o = Segment(f"O{obs_idx+1}", obs_next)
                         m_next = m.next(edge_m, edge_o, obs=obs_idx)
                         if m_next is not None:
-                            if m_next.shortkey in lattice_best:
+                            if m_next.stop:
+                                # Stopped matches only exist for debugging output, they are no candidates
+                                self.lattice[obs_idx].upsert(m_next)
+                            elif m_next.shortkey in lattice_best:
                                 # if m_next.dist_obs < lattice_best[m_next.shortkey].dist_obs:
                                 if m_next.logprob > lattice_best[m_next.shortkey].logprob:
                                     lattice_best[m_next.shortkey] = m_next
@@ -1120,7 +1126,10 @@ class BaseMatcher:
                         edge_o = Segment(f"O{obs_idx+1}", obs_next)
                         m_next = m.next(edge_m, edge_o, obs=obs_idx)
                         if m_next is not None:
-                            if m_next.shortkey in lattice_best:
+                            if m_next.stop:
+                                # Stopped matches only exist for debugging output, they are no candidates
+                                self.lattice[obs_idx].upsert(m_next)
+                            elif m_next.shortkey in lattice_best:
                                 # if m_next.dist_obs < lattice_best[m_next.shortkey].dist_obs:
                                 if m_next.logprob > lattice_best[m_next.shortkey].logprob:
                                     lattice_best[m_next.shortkey] = m_next
@@ -1528,7 +1537,7 @@ class BaseMatcher:
     def inspect_early_stopping(self):
         """Analyze the lattice and try to find most plausible reason why the
         matching stopped early and print to stdout."""
-        if self.early_stop_idx is None:
+        if not self.early_stop_idx:
             print("No early stopping.")
             return
         col = self.lattice[self.early_stop_idx - 1]
@@ -1551,7 +1560,7 @@ class BaseMatcher:
         :param nb_obs: How many last matched observations to consider
         """
         import heapq
-        if self.early_stop_idx is None:
+        if not self.early_stop_idx:
             col_idx = len(self.lattice) - 1
         else:
             col_idx = self.early_stop_idx - 1
